@@ -1,0 +1,45 @@
+//go:build verif
+
+// Verification hooks (build tag verif) for property C09, second part: hand out the shard's data files of a measurement
+// (referenced, with a release function) so that an external harness can read chunk metas, stored statistics and
+// segments through the real reader API (immutable.Location, TSSPFile.ReadAt), and run the memtable statistics builder
+// (recordIter.readMemTableMetaRecord) on a record. Thin wrappers, no behaviour of their own.
+package engine
+
+import (
+	"github.com/openGemini/openGemini/engine/comm"
+	"github.com/openGemini/openGemini/engine/immutable"
+	"github.com/openGemini/openGemini/lib/record"
+	"github.com/openGemini/openGemini/lib/util"
+	"github.com/openGemini/openGemini/lib/util/lifted/influx/influxql"
+)
+
+// VerifC09Files returns the ordered and out-of-order files of mst in the store's list order, referenced (file and
+// reader); call release when done.
+func (v *VerifShard) VerifC09Files(mst string) (order, unorder []immutable.TSSPFile, release func()) {
+	tr := util.TimeRange{Min: influxql.MinTime, Max: influxql.MaxTime}
+	order, unorder, _ = v.sh.immTables.GetBothFilesRef(mst, false, tr, nil)
+	immutable.RefFilesReader(order...)
+	immutable.RefFilesReader(unorder...)
+	release = func() {
+		for _, f := range order {
+			f.UnrefFileReader()
+			f.Unref()
+		}
+		for _, f := range unorder {
+			f.UnrefFileReader()
+			f.Unref()
+		}
+	}
+	return order, unorder, release
+}
+
+// VerifC09MemStats runs the memtable statistics builder used by the pre-aggregation path
+// (recordIter.readMemTableMetaRecord, called from seriesCursor.SetOps) on rec and returns the record the iterator holds
+// afterwards (nil when the builder dropped it); the statistics are in its RecMeta.
+func VerifC09MemStats(rec *record.Record, ops []*comm.CallOption) *record.Record {
+	var it recordIter
+	it.init(rec)
+	it.readMemTableMetaRecord(ops)
+	return it.record
+}
